@@ -1530,8 +1530,8 @@ fn state_corners(out: &mut Out) {
 pub fn audit() -> serde_json::Value {
     json!([
       {"class": 1, "topic": "entry path / variant never driven",
-       "covered": "message level: every GossipMessage variant, every GossipActor mailbox message, every pub fn of GossipState / GossipRouter / GossipManager / ShardReplicaState and the gossip side of ReplicatedShardedState are enumerated from the source the binary was built against and must be accounted for (C06:coverage:message-path-not-driven:*); real start_gossip_loop and start_gossip_loop_with_actor over loopback TCP; ReplicatedShardedState with both gossip backends, enabled on / off; a node's OWN deltas echoed back are really applied (the old harness skipped them to match a model that treated them as no-ops: the code has no origin check); node / actor restart with an empty state; the multi-key front end (MSET / MGET / EXISTS across shards); actor mailbox messages ExecuteReadonly / EvictExpired / DrainPendingDeltas (C08's table)",
-       "open": "GossipManager::start_server binds the fixed port 3001 + replica_id on 0.0.0.0 (another run may hold it) — its receive loop has the shape of server_persistent's handle_gossip_connection, transcribed by the model's recv; SyncRequest / SyncResponse are produced by no code; simulator/multi_node.rs (its own gossip_round / anti-entropy) is C18 / C20's"},
+       "covered": "message level: every GossipMessage variant, every GossipActor mailbox message, every pub fn of GossipState / GossipRouter / GossipManager / ShardReplicaState and the gossip side of ReplicatedShardedState are enumerated from the source the binary was built against and must be accounted for (C06:coverage:message-path-not-driven:*); real start_gossip_loop and start_gossip_loop_with_actor over loopback TCP; ReplicatedShardedState with both gossip backends, enabled on / off; a node's OWN deltas echoed back are really applied (the old harness skipped them to match a model that treated them as no-ops: the code has no origin check); node / actor restart with an empty state; the multi-key front end (MSET / MGET / EXISTS across shards); actor mailbox messages ExecuteReadonly / EvictExpired / DrainPendingDeltas (C08's table); session 4: the simulator cluster simulator/multi_node.rs — SimulatedNode::{execute, drain_deltas, apply_remote_deltas}, MultiNodeSimulation::{new, new_partitioned, with_auto_anti_entropy, execute, gossip_round (send_deltas, deliver_messages), advance_time_ms, partition, heal_partition, run_anti_entropy_sync, run_full_anti_entropy} — step by step against Model/SimCluster.lean (part S, ops S*)",
+       "open": "GossipManager::start_server binds the fixed port 3001 + replica_id on 0.0.0.0 (another run may hold it) — its receive loop has the shape of server_persistent's handle_gossip_connection, transcribed by the model's recv; SyncRequest / SyncResponse are produced by no code; the simulator's operation history / linearizability checker and its other public accessors are C20's (its source scan fails on a new public entry point of MultiNodeSimulation nobody drives)"},
       {"class": 2, "topic": "input alphabet",
        "covered": "values: empty, binary (00 ff 0a), short; keys incl. non-ASCII; hash commands with 1..6 fields and repetitions; deltas of both replicated kinds; frames with 0..n deltas (empty collect, bursts of 100+)",
        "open": "keys are Rust Strings (UTF-8 by type); counter / set CRDT kinds are not producible by the replicated actor (C07 covers their merges)"},
@@ -1542,19 +1542,19 @@ pub fn audit() -> serde_json::Value {
        "covered": "ReplicationConfig: enabled on / off, replica_id 1..4, consistency_level Eventual / Causal, gossip_interval_ms (5 ms in the TCP scenarios), peers complete / one missing, replication_factor 1..n, partitioned_mode + selective_gossip on / off, virtual_nodes_per_physical 1 / 8 / 150; a router installed at construction, later (set_router), replaced at run time, non-selective",
        "open": ""},
       {"class": 5, "topic": "capacity thresholds",
-       "covered": "MAX_PENDING_DELTAS and MAX_OUTBOUND_QUEUE are read from the source (and compared with the compiled constant and the model's constants) and crossed by generated cases; the theorems quantify over the capacities",
+       "covered": "MAX_PENDING_DELTAS and MAX_OUTBOUND_QUEUE are read from the source (and compared with the compiled constant and the model's constants) and crossed by generated cases; the theorems quantify over the capacities; the outbox capacity is also crossed INSIDE the simulator cluster (cap-3 … cap+6 writes on one node between two gossip rounds), max_keys_per_sync 0 / 1 / 2 / 1000 and merkle_tree_depth 0 / 1 / 3 / 8 in the anti-entropy exchanges",
        "open": "NUM_SHARDS = 16 is fixed in the source (C08's node-level model takes it as a parameter)"},
       {"class": 6, "topic": "fault kinds",
-       "covered": "a send that fails (refused connection, real TCP) is not retried; a target without address; a closed actor mailbox (handle fallbacks after Shutdown); frames never handed over / handed over twice / reordered; every loss cause has a Lean witness and a ledger entry compared step by step",
+       "covered": "a send that fails (refused connection, real TCP) is not retried; a target without address; a closed actor mailbox (handle fallbacks after Shutdown); frames never handed over / handed over twice / reordered; every loss cause has a Lean witness and a ledger entry compared step by step; in the simulator cluster: packet loss per send (rate 0 / 0.3 / 0.6 / 1, the simulator's own rng draws replayed by a twin rng and handed to the model), a partition at send time, a partition at delivery time (the flight stays queued and blocks the queue behind it), delays 0..14 ms",
        "open": "a serialisation failure of a GossipMessage cannot be provoked (serde_json on these types does not fail); partial TCP writes are below the model's send oracle"},
       {"class": 7, "topic": "history shapes",
-       "covered": "restart with an empty state + own deltas back + write again (corpus + random, shard level and actor level), write before the own history is back (excluded by cause, counted), write-after-receive, duplicates, bursts between two drains, router / replication-factor change at run time, a writer outside the key's replica set, partial flushes",
+       "covered": "restart with an empty state + own deltas back + write again (corpus + random, shard level and actor level), write before the own history is back (excluded by cause, counted), write-after-receive, duplicates, bursts between two drains, router / replication-factor change at run time, a writer outside the key's replica set, partial flushes; partition → writes on both sides → heal (with / without automatic anti-entropy) in any order; every delta of a burst lost, then run_full_anti_entropy; an exchange while flights are still queued",
        "open": ""},
       {"class": 8, "topic": "node-global state",
        "covered": "one Lamport clock per shard shared by all its keys (keys chosen on one shard / on different shards of the 16), one outbound queue and one epoch per node shared by all shards, the outbox per shard",
        "open": ""},
       {"class": 9, "topic": "observations",
-       "covered": "full replication state of every node, served keyspace with PTTL, GET / EXISTS / HGETALL / TTL replies, queue contents (first / last entries and length), every frame put on the wire (destination, kind, source, target, epoch, delta ids), every loss with its cause and destination, per-key flags delivered / delivered-to-owners / kind / agree / agree-among-owners",
+       "covered": "full replication state of every node, served keyspace with PTTL, GET / EXISTS / HGETALL / TTL replies, queue contents (first / last entries and length), every frame put on the wire (destination, kind, source, target, epoch, delta ids), every loss with its cause and destination, per-key flags delivered / delivered-to-owners / kind / agree / agree-among-owners; simulator cluster: after every step the Lamport clock and every key's full value of every touched node AND what its executor serves (GET of every pool key), the whole message queue (source, destination, delta ids, due time), the anti-entropy counter, the number of partitions; per key above (every responsible replica's value absorbs every recorded delta) / among / served",
        "open": "vector_clock and replication_factor are compared in the state dumps but carry no client-visible meaning"},
       {"class": 10, "topic": "finding signatures",
        "covered": "a divergence of a key of ONE kind whose registers re-use a stamp was absorbed by C06:cross-kind-order (compat = none was taken for 'mixed kinds'): now C06:rs-diverge:stamp-reused, a violation unless the history wrote before its own recovery (counted); the front-end findings carry the command in the signature",
